@@ -396,9 +396,93 @@ def check_concurrent(case, rec):
     rec.label('nproc=%d' % len(case['delays']))
 
 
+RCHILD = r'''
+import sys, os, time, json, warnings, itertools
+warnings.filterwarnings('ignore')
+src = %r
+if src: sys.path.insert(0, src)
+from nutils import cache
+logpath, cachedir, delay, ident, work, nitems, nproc = sys.argv[1], sys.argv[2], float(sys.argv[3]), sys.argv[4], float(sys.argv[5]), int(sys.argv[6]), int(sys.argv[7])
+def event(*a):
+    fd = os.open(logpath, os.O_WRONLY | os.O_APPEND | os.O_CREAT)
+    os.write(fd, (' '.join(map(str, a)) + '\n').encode())
+    os.close(fd)
+class R(cache.Recursion, length=2):
+    def __init__(self, offset):
+        self.offset = offset
+    def resume_index(self, history, index):
+        a, b = ([self.offset, self.offset + 1] + list(history))[-2:] if index else (None, None)
+        for i in itertools.count(index):
+            event('enter', i, ident)
+            time.sleep(work)
+            v = self.offset + i if i < 2 else a + b
+            a, b = b, v
+            event('exit', i, ident)
+            yield v
+R.__module__ = 'c18rchild'
+# barrier: start together once every process has finished importing
+open(os.path.join(os.path.dirname(logpath), 'ready-' + ident), 'w').close()
+t0 = time.time()
+while sum(f.startswith('ready-') for f in os.listdir(os.path.dirname(logpath))) < nproc and time.time() - t0 < 60:
+    time.sleep(.002)
+time.sleep(delay)
+with cache.enable(cachedir):
+    v = list(itertools.islice(R(3), nitems))
+print(json.dumps(v))
+'''
+
+
+@st.composite
+def concurrent_recursion_cases(draw, tier):
+    n = draw(st.integers(2, 4))
+    work = draw(st.sampled_from([0.05, 0.1, 0.15]))
+    return dict(delays=[0.0] + [draw(st.sampled_from([0.0, 0.25, 0.5, 0.75, 1.25, 1.5, 2.5])) * work for _ in range(n - 1)], work=work, nitems=[draw(st.integers(2, 5)) for _ in range(n)])
+
+
+def check_concurrent_recursion(case, rec):
+    """several processes iterate the same Recursion: every process gets the uncached sequence, and the generator is never advanced
+    for one and the same item by two processes at a time (the per-item file lock)"""
+    d = tempfile.mkdtemp(prefix='c18r-')
+    try:
+        logpath = os.path.join(d, 'log.txt')
+        cachedir = os.path.join(d, 'cache')
+        code = RCHILD % os.environ.get('VERIF_NUTILS_SRC', '')
+        n = len(case['delays'])
+        procs = [subprocess.Popen([sys.executable, '-c', code, logpath, cachedir, str(dl), str(i), str(case['work']), str(case['nitems'][i]), str(n)], stdout=subprocess.PIPE, stderr=subprocess.PIPE, text=True)
+                 for i, dl in enumerate(case['delays'])]
+        outs = []
+        for p in procs:
+            o, e = p.communicate(timeout=180)
+            if p.returncode != 0:
+                raise Violation('concurrent-caller-failed', f'recursion rc={p.returncode}: {e[-500:]}', where='concurrent-recursion:failed')
+            outs.append(json.loads(o.strip().splitlines()[-1]))
+        seq = [3, 4]
+        while len(seq) < 8: seq.append(seq[-1] + seq[-2])
+        for i, o in enumerate(outs):
+            if o != seq[:case['nitems'][i]]:
+                raise Violation('concurrent-wrong-value', f'recursion process {i} got {o}, uncached {seq[:case["nitems"][i]]}', where='concurrent-recursion:value')
+        events = [l.split() for l in open(logpath).read().splitlines()]
+        depth = {}
+        collided = False
+        for ev in events:
+            depth[ev[1]] = depth.get(ev[1], 0) + (1 if ev[0] == 'enter' else -1)
+            if depth[ev[1]] > 1:
+                raise Violation('concurrent-overlap', f'item {ev[1]} of the recursion was being computed by two processes at once: {events}', where='concurrent-recursion:overlap')
+        computed_by = {}
+        for ev in events:
+            if ev[0] == 'enter': computed_by.setdefault(ev[1], set()).add(ev[2])
+        rec.label('recursion-nproc=%d' % n)
+        if len({ev[2] for ev in events}) < n: rec.label('recursion:some-process-only-loaded')
+        if any(len(v) > 1 for v in computed_by.values()): rec.label('recursion:item-recomputed-by-second-process')
+    finally:
+        shutil.rmtree(d, ignore_errors=True)
+    rec.nontrivial = True
+
+
 SUBS = [Sub('prefix', prefix_cases, check_prefix, {'quick': 40, 'thorough': 400}, weight=4, timeout=300),
         Sub('recursion', recursion_cases, check_recursion, {'quick': 150, 'thorough': 3000}, weight=2),
-        Sub('concurrent', concurrent_cases, check_concurrent, {'quick': 2, 'thorough': 20}, weight=1, deterministic=False, shrink=False, timeout=300)]
+        Sub('concurrent', concurrent_cases, check_concurrent, {'quick': 2, 'thorough': 20}, weight=1, deterministic=False, shrink=False, timeout=300),
+        Sub('concurrent_recursion', concurrent_recursion_cases, check_concurrent_recursion, {'quick': 3, 'thorough': 30}, weight=1, deterministic=False, shrink=False, timeout=400)]
 
 TRIGGERS = {}
 
